@@ -62,7 +62,12 @@ MANIFEST = {
             "(C14_walk_handles_every_option, C14_walk_handles_only_specs); for dataclass-typed values (Optional/List/Dict/Union members) a "
             "class_path is accepted only when it IS the import path of the declared dataclass (C14_data_class_path_identity, "
             "C14_data_rejects_other_class) and for Union[dataclass, class] in either order an accepted class_path is the dataclass itself or passed "
-            "the class member's import/subclass check (C14_union_data_class). The statements of the walk, of the module-level discard, of "
+            "the class member's import/subclass check (C14_union_data_class); with the key-wise store of several sources and the FINAL "
+            "re-adaptation of the stored value in the model (unionAll), what is finally BUILT is the named class outside the class of the open "
+            "finding, stated as explicit hypothesis (C14_union_built_partial; negation witnesses C14_union_rebuilt_witness, "
+            "C14_union_kind_change_rejected_witness); for containers of classes at ANY depth (List/Dict/Optional nested, adaptC by recursion over "
+            "the type) every class spec of an accepted value passed the import/subclass check of ITS declared element type with init_args valid "
+            "for that class (C14_checked_nested, structural induction over the type). The statements of the walk, of the module-level discard, of "
             "resolve_class_path_by_name, of the dict_kwargs handling of adapt_class_type and of the Dataclass-like class_path test are "
             "regenerated and pinned (C14_statements_pinned). The model is tied to /repo by regenerating the spec keys, the dotted-option roots "
             "and the live scalar coercion matrix into Gen/ClassPathTables (C14_tables_pinned), and by generating class families as real packages "
@@ -77,9 +82,14 @@ MANIFEST = {
                   "Callable[..., Base], argument defaults, None given for a scalar parameter, parameters named like Namespace methods. "
                   "Several class-typed options per parser (option names that are prefixes of each other, config sources holding several options, "
                   "interleaved argv) and dataclass-typed arguments in class_path form with same-named classes in other modules are evaluated by the "
-                  "oracle per option / per named class; the walk is also compared with discardWalk on the real function; field validation of "
-                  "dataclasses and the final re-adaptation of stored Union values are oracle only. Open finding "
-                  "C14-union-dataclass-spec-rebuilt-as-class-arm (Union[Class, Dataclass] given the dataclass's exact class_path is built as the class).",
+                  "oracle per option / per named class; the walk is also compared with discardWalk on the real function. Dataclass / "
+                  "Union[dataclass, class] arguments (dataAll / unionAll: members in order, key-wise store, final re-adaptation, defaults) and nested "
+                  "containers (adaptCAll; defaults are written into the stored configuration only under at most one container level) are compared "
+                  "with the real parser on every generated case whose values have the scalar types the class member declares (ints given for bool / "
+                  "str parameters are C02); dataclass fields are scalars in the model. Open findings "
+                  "C14-union-dataclass-spec-rebuilt-as-class-arm (Union[Class, Dataclass] given the dataclass's exact class_path is built as the class) "
+                  "and C14-union-dataclass-class-change-rejected (dataclass after class or class after dataclass between sources is rejected), both "
+                  "reproduced by the model with witness theorems.",
 }
 
 F_STALE_DK = "C14-stale-dict-kwargs"
@@ -2214,6 +2224,7 @@ def run_multi(ctx: Ctx, cases, origin):
 #   value = {"cp": "D" | name notation of a family class, "ia": {k: scalar}} | {"bare": {k: scalar}} | None | {"dotted": [k, scalar]}
 # ---------------------------------------------------------------------------------------------
 F_UNION_DC = "C14-union-dataclass-spec-rebuilt-as-class-arm"
+F_UNION_CHANGE = "C14-union-dataclass-class-change-rejected"
 DC_NAMES = ["SubA", "SubB", "Unrel", "Settings", "SubC"]
 DC_KINDS = ["optData", "listData", "dictData", "dataOrCls", "clsOrData"]
 
@@ -2486,7 +2497,16 @@ def dc_cases(rng, fam):
         else:
             v = None if kind == "optData" else {"bare": ia}
         values = [v]
-        if v is not None and kind in ("optData", "dataOrCls") and rng.random() < 0.35:
+        if isinstance(v, dict) and "cp" in v and kind in ("dataOrCls", "clsOrData") and rng.random() < 0.25:
+            # a second source of the OTHER member: dataclass after class, class after dataclass (a class change between sources)
+            if v["cp"] == "D":
+                X = rng.choice(["SubA", "SubB", "SubC"])
+                req = {p["name"]: rng.choice(SCALARS[p["ty"][1]]) for p in (target_params(fam, X) or []) if p["default"] == "REQ" and p["ty"][0] == "scalar"}
+                values.append({"cp": "@" + X, "ia": req})
+            else:
+                f = rng.choice(fields)
+                values.append({"cp": "D", "ia": {f["name"]: rng.choice(SCALARS[f["ty"][1]])}})
+        elif v is not None and kind in ("optData", "dataOrCls") and rng.random() < 0.35:
             f = rng.choice(fields)
             values.append({"dotted": [f["name"], rng.choice(SCALARS[f["ty"][1]])]})
         elif v is not None and kind == "optData" and rng.random() < 0.1:
@@ -2501,8 +2521,103 @@ def dc_uses_clash_or_lazy(fam, case):
     return exp[0] == "cls" and any(isinstance(x, dict) for x in exp[1]["ia"].values())
 
 
+def dc_kind_change(case):
+    """class of the open finding C14-union-dataclass-class-change-rejected: a Union argument receives a class_path of one
+    member after a class_path of the other member"""
+    if case["kind"] not in ("dataOrCls", "clsOrData"):
+        return False
+    kinds = [("data" if v["cp"] == "D" else "cls") for v in case["values"] if isinstance(v, dict) and "cp" in v]
+    return any(a != b for a, b in zip(kinds, kinds[1:]))
+
+
+def dc_wire_value(fam, N, v):
+    if v is None:
+        return {"lit": ["NoneType", "None"]}
+    if "dotted" in v:
+        return {"nested": [[v["dotted"][0]], {"lit": lit(v["dotted"][1])}]}
+    if "bare" in v:
+        return {"bare": [[k, {"lit": lit(x)}] for k, x in v["bare"].items()]}
+    return {"spec": {"cp": dc_path(fam, N) if v["cp"] == "D" else full(fam, v["cp"]), "ia": [[k, {"lit": lit(x)}] for k, x in v["ia"].items()], "dk": []}}
+
+
+def dc_in_model(fam, case):
+    """the scalar domain of the model: every given value has the Python type of the same-named parameter of the class member
+    (an int given where the class member declares bool / str is C02's subject); the named classes have scalar parameters only"""
+    base = cls_of(fam, "Base")["params"]
+    for v in case["values"]:
+        if not isinstance(v, dict):
+            continue
+        kv = dict(v.get("ia") or v.get("bare") or {})
+        if "dotted" in v:
+            kv[v["dotted"][0]] = v["dotted"][1]
+        for k, x in kv.items():
+            for ps in (base, dc_fields(fam, case["dc"])):
+                q = param_of(ps, k)
+                if q is not None and q["ty"][0] in ("scalar", "optScalar") and x is not None and type(x).__name__ != q["ty"][1]:
+                    return False
+        if "cp" in v and v["cp"] != "D":
+            tp = target_params(fam, v["cp"].lstrip("@^"))
+            if tp is None or not model_ok_params(tp) or any(p["ty"][0] not in ("scalar", "optScalar") for p in tp):
+                return False
+    return model_ok_params(base) and all(p["ty"][0] in ("scalar", "optScalar") for p in base)
+
+
+def dc_real_canon_type(fam, t):
+    if t is None:
+        return None
+    if t.startswith(modname(fam) + "."):
+        return canonical(fam, t[len(modname(fam)) + 1:])
+    if t.startswith(pkgname(fam) + ".defs2."):
+        return canonical(fam, "%" + t.rsplit(".", 1)[1])
+    return t
+
+
+def dc_corr_diff(fam, case, real, m):
+    if "err" in m:
+        return None if real["kind"] == "reject" else "model rejects (%s), real %s built %s" % (m["err"], real["kind"], real.get("type"))
+    if real["kind"] != "ok":
+        return "model accepts (built %s), real %s %s" % (m.get("built"), real["kind"], real.get("msg", "")[:200])
+    if "inst_error" in real:
+        return None
+    if m.get("built") != dc_real_canon_type(fam, real.get("type")):
+        return "built class: real %s, model %s" % (real.get("type"), m.get("built"))
+    if m.get("ok") is None:
+        return None
+    mv = m["ok"]
+    kv = mv.get("bare") if "bare" in mv else mv.get("spec", {}).get("ia", [])
+    want = {k: x.get("lit") for k, x in kv}
+    got = {k: real["attrs"].get(k) for k in want}
+    if m.get("built") in class_params_by_path(fam) or "bare" in mv:
+        if got != want and not func_of(fam, (m.get("built") or "").rsplit(".", 1)[-1]):
+            return "fields / init_args: real %s, model %s" % (json.dumps(got, sort_keys=True)[:200], json.dumps(want, sort_keys=True)[:200])
+    return None
+
+
 def run_dc(ctx: Ctx, cases, origin):
-    for fam, case in cases:
+    # the model on the same cases (dataAll / unionAll: members in order, key-wise store, final re-adaptation, defaults)
+    lines, index, last = [], {}, None
+    for i, (fam, case) in enumerate(cases):
+        try:
+            if dc_uses_clash_or_lazy(fam, case) or not dc_in_model(fam, case):
+                continue
+        except Exception:  # noqa: BLE001
+            continue
+        if modname(fam) != last:
+            lines.append({"setenv": wire_env(fam)})
+            last = modname(fam)
+        index[i] = len(lines)
+        lines.append({"dcarg": {"kind": case["kind"], "decl": dc_path(fam, case["dc"]), "fields": [wire_param(fam, f) for f in dc_fields(fam, case["dc"])],
+                                "base": canonical(fam, "Base"), "values": [dc_wire_value(fam, case["dc"], v) for v in case["values"]]}, "fuel": 24})
+    model = None
+    if lines:
+        try:
+            model = ctx.driver("ClassPath", lines)
+        except MachineryError as ex:
+            if ctx.lean_ok:
+                raise
+            ctx.tie_break("correspondence E10b not runnable (model does not build)", str(ex))
+    bad = 0
+    for i, (fam, case) in enumerate(cases):
         try:
             if dc_uses_clash_or_lazy(fam, case):
                 continue
@@ -2511,11 +2626,24 @@ def run_dc(ctx: Ctx, cases, origin):
         ctx.count()
         real = dc_real(fam, case)
         dev, finding = dc_problem(fam, case, real)
+        if model is not None and i in index:
+            d = dc_corr_diff(fam, case, real, model[index[i]])
+            ctx.hist("dataclass_arg_model", "compared")
+            if d is not None:
+                bad += 1
+                if os.environ.get("VERIF_C14_DEBUG"):
+                    print("CORR-DC", d[:400], json.dumps(dc_argv(fam, case))[:300], case["kind"], file=sys.stderr)
+                if bad <= 3:
+                    ctx.tie_break("correspondence E10b (dataclass / Union[dataclass, class] model vs jsonargparse._typehints) disagrees",
+                                  json.dumps({"diff": d, "argv": dc_argv(fam, case), "case": case, "module": family_src(fam)}, ensure_ascii=True)[:1900])
         ctx.hist("dataclass_arg", "%s/%s/%s" % (case["kind"], "D" if isinstance(case["values"][0], dict) and case["values"][0].get("cp") == "D" else
                                                   "other-class" if isinstance(case["values"][0], dict) and "cp" in case["values"][0] else "dict", real["kind"]))
         if dev is None:
             if real["kind"] == "ok" and real.get("calls"):
                 ctx.nontrivial(json.dumps(["dc", family_src(fam), case]))
+            continue
+        if dc_kind_change(case) and ctx.is_open(F_UNION_CHANGE):
+            ctx.known(F_UNION_CHANGE, "%s (argv %s)" % (dev[:200], json.dumps(dc_argv(fam, case))[:200]))
             continue
         if finding and ctx.is_open(F_UNION_DC):
             ctx.known(F_UNION_DC, "%s (argv %s)" % (dev[:200], json.dumps(dc_argv(fam, case))[:200]))
@@ -2523,6 +2651,325 @@ def run_dc(ctx: Ctx, cases, origin):
         ctx.violation("dataclass-typed argument in class_path form: %s" % dev,
                       {"kind": "dc", "origin": origin, "family": fam, "case": case, "argv": dc_argv(fam, case), "module": family_src(fam),
                        "dataclass": {"path": dc_path(fam, case["dc"]), "fields": dc_fields(fam, case["dc"])}, "observed": real})
+    return bad
+
+
+# ---------------------------------------------------------------------------------------------
+# containers of classes at ANY depth: an argument typed List[Dict[str, Optional[Base]]], Dict[str, List[Dep]], ... (one source).
+# A case: {"cty": T, "value": V}; T = ["cls", C] | ["opt", T] | ["list", T] | ["dict", T];
+#   V = raw spec (a leaf) | None | [V, ...] | {"items": [[key, V], ...]}
+# property: accepted iff EVERY leaf names a subclass of its declared element type with init_args valid for it; every leaf is
+# then built once, as exactly the named class, and stands where its spec stood
+# ---------------------------------------------------------------------------------------------
+def cty_python(fam, t):
+    from typing import Dict, List, Optional
+
+    if t[0] == "cls":
+        return getattr(module_for(fam), t[1])
+    inner = cty_python(fam, t[1])
+    return {"opt": Optional[inner], "list": List[inner], "dict": Dict[str, inner]}[t[0]]
+
+
+def cty_src(t):
+    return t[1] if t[0] == "cls" else {"opt": "Optional[%s]", "list": "List[%s]", "dict": "Dict[str, %s]"}[t[0]] % cty_src(t[1])
+
+
+def cty_wire(fam, t):
+    return ["cls", canonical(fam, t[1])] if t[0] == "cls" else [t[0], cty_wire(fam, t[1])]
+
+
+def gen_cty(rng, depth):
+    if depth == 0:
+        return ["cls", rng.choice(["Base", "Base", "Dep"])]
+    k = rng.choice(["list", "dict", "opt", "list", "dict"])
+    inner = gen_cty(rng, depth - 1)
+    if k == "opt" and inner[0] == "opt":
+        k = "list"
+    return [k, inner]
+
+
+def gen_cty_value(rng, fam, t, bad):
+    """a value of the shape of t; `bad`: a one-element list that asks for ONE faulty leaf (emptied when it was placed)"""
+    if t[0] == "cls":
+        if bad and rng.random() < 0.5:
+            kind = bad.pop()
+            if kind == "wrong-class":
+                return {"name": "@Unrel"} if rng.random() < 0.5 else {"cp": "@Unrel", "ia": {}, "dk": None}
+            target = rng.choice([x for x in acceptable(fam, t[1]) if cls_of(fam, x)] or acceptable(fam, t[1]))
+            return {"cp": "@" + target.lstrip("%") if not target.startswith("%") else target, "ia": dict(gen_ia(rng, fam, target), nosuch=1), "dk": None}
+        return strip_dk(gen_spec_raw(rng, fam, t[1]))
+    if t[0] == "opt":
+        return None if rng.random() < 0.3 else gen_cty_value(rng, fam, t[1], bad)
+    n = rng.randint(0, 2) if not bad else rng.randint(1, 2)
+    if t[0] == "list":
+        return [gen_cty_value(rng, fam, t[1], bad) for _ in range(n)]
+    return {"items": [[k, gen_cty_value(rng, fam, t[1], bad)] for k in rng.sample(["k1", "k2", "enc"], n)]}
+
+
+def cty_json(fam, t, v):
+    if t[0] == "cls":
+        return raw_to_json(fam, v)
+    if t[0] == "opt":
+        return None if v is None else cty_json(fam, t[1], v)
+    if t[0] == "list":
+        return [cty_json(fam, t[1], x) for x in v]
+    return {k: cty_json(fam, t[1], x) for k, x in v["items"]}
+
+
+def cty_wire_value(fam, t, v):
+    if t[0] == "cls":
+        return wire_raw(fam, v)
+    if t[0] == "opt":
+        return {"lit": ["NoneType", "None"]} if v is None else cty_wire_value(fam, t[1], v)
+    if t[0] == "list":
+        return {"lst": [cty_wire_value(fam, t[1], x) for x in v]}
+    return {"dct": [[k, cty_wire_value(fam, t[1], x)] for k, x in v["items"]]}
+
+
+def cty_expected(fam, t, v):
+    """canonical expected configuration; raises Reject"""
+    if t[0] == "cls":
+        return ref_finalize(fam, ref_apply(fam, t[1], None, v))
+    if t[0] == "opt":
+        return None if v is None else cty_expected(fam, t[1], v)
+    if t[0] == "list":
+        return [cty_expected(fam, t[1], x) for x in v]
+    return {"items": [[k, cty_expected(fam, t[1], x)] for k, x in v["items"]]}
+
+
+def cty_canon_exp(fam, t, e):
+    if e is None:
+        return {"lit": ["NoneType", "None"]} if t[0] == "opt" else None
+    if t[0] == "cls":
+        return canon_state(fam, e)
+    if t[0] == "opt":
+        return cty_canon_exp(fam, t[1], e)
+    if t[0] == "list":
+        return [cty_canon_exp(fam, t[1], x) for x in e]
+    return {k: cty_canon_exp(fam, t[1], x) for k, x in e["items"]}
+
+
+def cty_canon_real(t, v):
+    if v is None:
+        return {"lit": ["NoneType", "None"]}
+    if t[0] == "cls":
+        return canon_real(v)
+    if t[0] == "opt":
+        return cty_canon_real(t[1], v)
+    if t[0] == "list":
+        return [cty_canon_real(t[1], x) for x in v] if isinstance(v, list) else {"other": repr(v)[:100]}
+    return {k: cty_canon_real(t[1], x) for k, x in v.items()} if isinstance(v, dict) else {"other": repr(v)[:100]}
+
+
+def cty_leaves(t, e, objs):
+    """[(expected final state, built object)] in container order"""
+    if e is None:
+        return [] if objs is None else [(None, objs)]
+    if t[0] == "cls":
+        return [(e, objs)]
+    if t[0] == "opt":
+        return cty_leaves(t[1], e, objs)
+    if t[0] == "list":
+        return [x for a, b in zip(e, objs) for x in cty_leaves(t[1], a, b)]
+    return [x for (k, a) in e["items"] for x in cty_leaves(t[1], a, objs[k])]
+
+
+def cty_real(fam, case):
+    from jsonargparse import ArgumentError, ArgumentParser
+
+    mod = module_for(fam)
+    parser = ArgumentParser(exit_on_error=False)
+    parser.add_argument("--opt", type=cty_python(fam, case["cty"]))
+    err = io.StringIO()
+    try:
+        with contextlib.redirect_stderr(err):
+            j = cty_json(fam, case["cty"], case["value"])
+            cfg = parser.parse_args(["--opt", j if isinstance(j, str) else json.dumps(j)])
+    except ArgumentError as ex:
+        return {"kind": "reject", "cat": err_category(str(ex)), "msg": str(ex).replace("\n", " | ")[:300]}
+    except Exception as ex:  # noqa: BLE001
+        return {"kind": "crash", "msg": "%s: %s" % (type(ex).__name__, str(ex)[:300])}
+    out = {"kind": "ok", "cfg": cty_canon_real(case["cty"], cfg.get("opt"))}
+    mod.LOG.clear()
+    try:
+        init = parser.instantiate_classes(cfg)
+    except Exception as ex:  # noqa: BLE001
+        mod.LOG.clear()
+        out["inst_error"] = "%s: %s" % (type(ex).__name__, str(ex)[:300])
+        return out
+    log = list(mod.LOG)
+    mod.LOG.clear()
+    ids = {oid: i for i, (_, oid, _, _) in enumerate(log)}
+    out["ctors"] = [{"target": canonical(fam, name),
+                     "args": {k: ({"obj": ids[id(v)]} if id(v) in ids and not isinstance(v, (int, str, float, bool, type(None))) else {"lit": lit(v)}) for k, v in args.items()},
+                     "kwargs": {k: {"lit": lit(v)} for k, v in kwargs.items()}} for name, _, args, kwargs in log]
+    out["objs"] = init.get("opt")
+    out["ids"] = ids
+    return out
+
+
+def cty_cfg_matches(got, want):
+    """the stored configuration names the expected classes and holds nothing but expected init_args (specs under two or
+    more container levels are stored without the defaults of their class)"""
+    if isinstance(want, list):
+        return isinstance(got, list) and len(got) == len(want) and all(cty_cfg_matches(g, w) for g, w in zip(got, want))
+    if isinstance(want, dict) and "cp" in want:
+        if not (isinstance(got, dict) and got.get("cp") == want["cp"] and got.get("dk") == want["dk"]):
+            return False
+        return all(k in want["ia"] and cty_cfg_matches(v, want["ia"][k]) for k, v in got["ia"].items())
+    if isinstance(want, dict) and "lit" not in want:
+        return isinstance(got, dict) and list(got) == list(want) and all(cty_cfg_matches(got[k], want[k]) for k in want)
+    return got == want
+
+
+def cty_problem(fam, case, real):
+    t = case["cty"]
+    try:
+        exp = ("ok", cty_expected(fam, t, case["value"]))
+    except Reject as ex:
+        exp = ("reject", str(ex))
+    if real["kind"] == "crash":
+        return "parsing a %s value raises %s" % (cty_src(t), real["msg"])
+    if exp[0] == "reject":
+        return None if real["kind"] == "reject" else "a %s value with a leaf that must be rejected (%s) is accepted" % (cty_src(t), exp[1])
+    if real["kind"] == "reject":
+        return "a valid %s value is rejected: %s" % (cty_src(t), real["msg"])
+    want = cty_canon_exp(fam, t, exp[1])
+    if not cty_cfg_matches(real["cfg"], want):
+        return "%s: parsed configuration differs: got %s expected %s" % (cty_src(t), json.dumps(real["cfg"], sort_keys=True)[:300], json.dumps(want, sort_keys=True)[:300])
+    if "inst_error" in real:
+        return "instantiate_classes fails on an accepted %s value: %s" % (cty_src(t), real["inst_error"])
+    try:
+        leaves = cty_leaves(t, exp[1], real["objs"])
+    except Exception as ex:  # noqa: BLE001
+        return "%s: the instantiated value has another shape than the configuration (%s)" % (cty_src(t), type(ex).__name__)
+    n = 0
+    for st, obj in leaves:
+        if st is None:
+            continue
+        calls = expected_ctors(fam, st)
+        n += len(calls)
+        tname = ("defs2." if type(obj).__module__.endswith(".defs2") else "") + type(obj).__name__
+        if canonical(fam, tname) != canonical(fam, target_class(fam, st["t"])):
+            return "%s: a leaf was built as %s, its spec names %s" % (cty_src(t), type(obj).__name__, target_class(fam, st["t"]))
+        if cls_of(fam, st["t"]):
+            for p in target_params(fam, st["t"]):
+                x = st["ia"][p["name"]]
+                if not isinstance(x, dict) and lit(getattr(obj, p["name"])) != lit(x):
+                    return "%s: a leaf %s has %s=%r, configured (or default) %r" % (cty_src(t), st["t"], p["name"], getattr(obj, p["name"]), x)
+        if cls_of(fam, st["t"]) and real["ids"].get(id(obj)) != n - 1:
+            return "%s: a leaf object is not the one built from the spec at its place (call %s, expected %d)" % (cty_src(t), real["ids"].get(id(obj)), n - 1)
+    if len(real["ctors"]) != n:
+        return "%s: %d constructor calls, expected %d (one per spec)" % (cty_src(t), len(real["ctors"]), n)
+    return None
+
+
+def cty_depth(t):
+    return 0 if t[0] == "cls" else cty_depth(t[1]) + (0 if t[0] == "opt" else 1)
+
+
+def cty_log_agrees(t, real, model):
+    """under at most one container level the keyword arguments are exactly the stored init_args; deeper specs are stored
+    without the defaults of their class, the constructor (which logs its BOUND parameters) applies its own defaults: the
+    model's keyword arguments are then a part of what the constructor logs"""
+    if cty_depth(t) <= 1:
+        return real == model
+    return len(real) == len(model) and all(r["target"] == m["target"] and r["kwargs"] == m["kwargs"] and all(r["args"].get(k) == a for k, a in m["args"].items())
+                                           for r, m in zip(real, model))
+
+
+def cty_cases(rng, fam):
+    out = []
+    for depth in (2, 3, rng.choice([1, 2, 3])):
+        t = gen_cty(rng, depth)
+        bad = [rng.choice(["wrong-class", "unknown-key"])] if rng.random() < 0.3 else []
+        try:
+            v = gen_cty_value(rng, fam, t, bad)
+        except (Reject, IndexError):
+            continue
+        if cty_depth(t) >= 2 and cty_lazy_leaf(fam, t, v):
+            continue        # lazy_instance defaults of a leaf's parameters below two container levels: left to the single-class checks
+        out.append((fam, {"cty": t, "value": v}))
+    return out
+
+
+def cty_lazy_leaf(fam, t, v):
+    if v is None:
+        return False
+    if t[0] == "cls":
+        try:
+            st = ref_apply(fam, t[1], None, v)
+        except Reject:
+            return False
+
+        def lazy(st):
+            ps = target_params(fam, st["t"]) or []
+            return any(is_lazy(p["default"]) for p in ps) or any(lazy(x) for x in st["ia"].values() if isinstance(x, dict))
+        return lazy(st)
+    if t[0] == "opt":
+        return cty_lazy_leaf(fam, t[1], v)
+    return any(cty_lazy_leaf(fam, t[1], x) for x in (v if t[0] == "list" else [x for _, x in v["items"]]))
+
+
+def cty_uses_dk(v):
+    s = json.dumps(v)
+    return '"dk": {' in s
+
+
+def run_cty(ctx: Ctx, cases, origin):
+    lines, index, last = [], {}, None
+    for i, (fam, case) in enumerate(cases):
+        if modname(fam) != last:
+            lines.append({"setenv": wire_env(fam)})
+            last = modname(fam)
+        index[i] = len(lines)
+        lines.append({"cty": cty_wire(fam, case["cty"]), "value": cty_wire_value(fam, case["cty"], case["value"]), "fuel": 24})
+    model = None
+    if lines:
+        try:
+            model = ctx.driver("ClassPath", lines)
+        except MachineryError as ex:
+            if ctx.lean_ok:
+                raise
+            ctx.tie_break("correspondence E10b not runnable (model does not build)", str(ex))
+    bad = 0
+    for i, (fam, case) in enumerate(cases):
+        ctx.count()
+        real = cty_real(fam, case)
+        ctx.hist("nested_container", "%s/%s" % (cty_src(case["cty"]).replace("Base", "C").replace("Dep", "C"), real["kind"]))
+        dev = cty_problem(fam, case, real)
+        if dev is not None:
+            ctx.violation("containers of classes at depth: " + dev,
+                          {"kind": "cty", "origin": origin, "family": fam, "case": case, "type": cty_src(case["cty"]),
+                           "argv": ["--opt", json.dumps(cty_json(fam, case["cty"], case["value"]))], "module": family_src(fam)})
+        elif real["kind"] == "ok" and real.get("ctors"):
+            ctx.nontrivial(json.dumps(["cty", family_src(fam), case]))
+        if model is not None:
+            m = model[index[i]]
+            d = None
+            if "err" in m:
+                if real["kind"] != "reject":
+                    d = "model rejects (%s), real %s" % (m["err"], real["kind"])
+                elif real["cat"] != m["err"] and "Optional" not in cty_src(case["cty"]):
+                    # (the message of a failed Optional lists the errors of both members: no single class)
+                    d = "error class: real %s (%s), model %s" % (real["cat"], real.get("msg", "")[:160], m["err"])
+            elif real["kind"] != "ok":
+                d = "model accepts, real %s %s" % (real["kind"], real.get("msg", "")[:200])
+            else:
+                mc = model_val_to_canon(m["ok"])
+                if real["cfg"] != mc:
+                    d = "parse result: real %s, model %s" % (json.dumps(real["cfg"], sort_keys=True)[:300], json.dumps(mc, sort_keys=True)[:300])
+                elif "ctors" in real and not cty_log_agrees(case["cty"], real["ctors"], model_ctors(m)):
+                    d = "constructor log: real %s, model %s" % (json.dumps(real["ctors"])[:300], json.dumps(model_ctors(m))[:300])
+            if d is not None:
+                bad += 1
+                if os.environ.get("VERIF_C14_DEBUG"):
+                    print("CORR-CTY", d[:500], cty_src(case["cty"]), json.dumps(cty_json(fam, case["cty"], case["value"]))[:300], file=sys.stderr)
+                if bad <= 3:
+                    ctx.tie_break("correspondence E10b (containers of classes at depth: adaptC vs jsonargparse._typehints) disagrees",
+                                  json.dumps({"diff": d, "type": cty_src(case["cty"]), "value": cty_json(fam, case["cty"], case["value"]),
+                                              "module": family_src(fam)}, ensure_ascii=True)[:1900])
+    return bad
 
 
 # ---------------------------------------------------------------------------------------------
@@ -2758,7 +3205,7 @@ def run(ctx: Ctx):
         corpus_cases = [(c["family"], c["declared"], c["sources"]) for c in corpus_all if "sources" in c]
         bad = run_cases(ctx, corpus_cases, "corpus")
         bad += run_container_multi_batch(ctx, [(c["family"], c["container"]["ckind"], c["container"]["sources"]) for c in corpus_all if "container" in c], "corpus")
-        n_fam = ctx.budget(28, 330) * (2 if ctx.search_boost > 1 else 1)
+        n_fam = ctx.budget(25, 300) * (2 if ctx.search_boost > 1 else 1)
         cases = []
         fams = []
         for _ in range(n_fam):
@@ -2815,12 +3262,20 @@ def run(ctx: Ctx):
         ctx.extra["multi_option_cases"] = len(mcases)
         # dataclass-typed arguments (Optional / List / Dict / Union with a class) given in class_path form
         dcases = [(c["family"], c["dc_case"]) for c in corpus_all if "dc_case" in c]
-        run_dc(ctx, dcases, "corpus")
+        bad += run_dc(ctx, dcases, "corpus")
         dcases = []
         for fam in fams:
             dcases.extend(dc_cases(ctx.rng, fam))
-        run_dc(ctx, dcases, "generated")
+        bad += run_dc(ctx, dcases, "generated")
         ctx.extra["dataclass_argument_cases"] = len(dcases)
+        # containers of classes at any depth (one source): oracle per leaf + adaptC correspondence
+        ccases = [(c["family"], c["cty_case"]) for c in corpus_all if "cty_case" in c]
+        bad += run_cty(ctx, ccases, "corpus")
+        ccases = []
+        for fam in fams:
+            ccases.extend(cty_cases(ctx.rng, fam))
+        bad += run_cty(ctx, ccases, "generated")
+        ctx.extra["nested_container_cases"] = len(ccases)
         # instantiators registered on the parent parser and on the subcommand parser
         icases = []
         if corpus_cases:
@@ -2897,6 +3352,15 @@ def replay(ctx: Ctx, body):
             print("expected:", json.dumps(dc_expected(fam, case), ensure_ascii=True, default=repr)[:1000])
             dev, finding = dc_problem(fam, case, real)
             print("deviation:", dev, "(open finding class)" if finding else "")
+            return 1 if dev else 0
+        if rp.get("kind") == "cty":
+            fam, case = rp["family"], rp["case"]
+            print(family_src(fam))
+            print("--opt: %s; parse_args(%r)" % (cty_src(case["cty"]), ["--opt", json.dumps(cty_json(fam, case["cty"], case["value"]))]))
+            real = cty_real(fam, case)
+            print("observed:", json.dumps({k: v for k, v in real.items() if k not in ("objs", "ids")}, ensure_ascii=True, default=repr)[:1200])
+            dev = cty_problem(fam, case, real)
+            print("deviation:", dev)
             return 1 if dev else 0
         if rp.get("kind") == "metamorphic":
             fam, T = rp["family"], rp["declared"]
